@@ -1217,3 +1217,25 @@ Proof.
     destruct (pc_no_delims _ Pc) as [P63 P35]. destruct (pc_no_delims _ Sc) as [S63 S35].
     apply cut_ref_generated; auto; rewrite !in_app_iff; tauto.
 Qed.
+
+(* static_url and current_route_url are route_url on derived arguments, so route_url_decodes covers them *)
+Theorem static_url_is_route_url e rs regs path o kw u :
+  static_url e rs regs path o kw = Ok u ->
+  exists sub rname, find_reg regs path = Some (sub, rname)
+    /\ route_url [] e rs rname [] o (dset static_subpath_key (KScalar (PStr sub)) kw) = Ok u
+    /\ join_elements_c [] [] = join_elements [].
+Proof.
+  unfold static_url. destruct (find_reg regs path) as [[sub rname]|]; [|discriminate].
+  intros H. exists sub, rname. split; [reflexivity|]. split; [assumption|].
+  unfold join_elements_c. destruct join_elements_key_stringified; reflexivity.
+Qed.
+
+Theorem current_route_url_is_route_url c e rs rname matched md gt els o kw u :
+  current_route_url c e rs rname matched md gt els o kw = Ok u ->
+  exists name, (rname = Some name \/ (rname = None /\ matched = Some name))
+    /\ route_url c e rs name els
+         (match o_query o with Some _ => o | None => set_query o (QPairs gt) end) (dupdate md kw) = Ok u.
+Proof.
+  unfold current_route_url. destruct rname as [n|]; [|destruct matched as [n|]; [|discriminate]];
+    intros H; exists n; split; auto.
+Qed.
